@@ -30,12 +30,13 @@ def price_words(T, tier):
     if tier == "thorough":
         return allw
     keep = [w for i, w in enumerate(allw) if i % 5 == 1][:7]
+    keep += [[6.0, 1.0, 1.0, 6.0, 1.0], [1.0, 1.0, 6.0, 1.0, 6.0]]   # charge late, hold over two steps, sell at the end
     return keep
 
 
 def make_gen(tier):
     def gen(ch):
-        gname = ch.pick("grid", ["4x6h", "5xh", "8x6h", "3xd_spring", "4x6h_d", "12h_partial", "3xd_autumn", "3xMS"])
+        gname = ch.pick("grid", ["4x6h", "5xh", "8x6h", "3xd_spring", "4x6h_d", "12h_partial", "3xd_autumn", "3xMS", "4xd_autumn"])
         gj = dict(S.GRIDS[gname])
         g = Grid.from_json(gj)
         T = g.T
